@@ -128,6 +128,21 @@ func toTime(sec int64) time.Time {
 
 type guardable interface{ Check() error }
 
+// Wr is the operation set shared by all six Writer implementations.
+type Wr interface {
+	Write([]byte) (int, error)
+	Flush() error
+	Close() error
+	Reset(io.Writer)
+}
+
+// NewWriter builds the scenario's Writer on dst (exported for the pipe and
+// multi-instance drivers).
+func NewWriter(sc *WScen, dst io.Writer, fast bool) (Wr, error) {
+	w, _, err := newWriter(sc, dst, fast)
+	return w, err
+}
+
 // newWriter builds the Writer of the scenario on top of dst.
 func newWriter(sc *WScen, dst io.Writer, fast bool) (w wr, g guardable, err error) {
 	var dict []byte
